@@ -1,5 +1,6 @@
 """C02 — dispatch runs exactly the annotated handler with the sent arguments."""
 import json
+import base64
 import random
 
 from .. import casing, common as c, corpus, l2, translate
@@ -29,6 +30,11 @@ def expected(prog, kind, part_id, m, fields, fail, sender, amount, height, seed)
         attrs += [("sender", sender), ("funds", "" if amount == 0 else "%dutok" % amount)]
     attrs += [("height", str(height)), ("addr", ADDR), ("seed", seed)]
     if kind == "query":
+        # the JSON encoding of the returned value: one of the prelude's response structs, a String, or a Binary (base64 string)
+        if m.get("ret_kind") == "str":
+            return "ok " + corpus.jtext("|".join("%s=%s" % kv for kv in attrs))
+        if m.get("ret_kind") == "bin":
+            return "ok " + corpus.jtext(base64.b64encode("|".join("%s=%s" % kv for kv in attrs).encode()).decode())
         return "ok " + corpus.jtext({"attrs": [[k, v] for k, v in attrs]})
     data = ("m:" + hid).encode().hex() if kind == "migrate" else "-"
     return "ok " + "|".join("%s=%s" % kv for kv in attrs) + " msgs=0 events=0 data=" + data + " stored=" + hid
